@@ -561,7 +561,7 @@ class World:
             ratio = ops.num(exp["ratio"])
             a0, a1 = prev[2], ans[2]
             vnow = self.slots[step["a"]].V
-            rounded = (not isinstance(vnow, str)) and kernel.max_denominator(model.value(self.slots[step["a"]].live)) > 10**7
+            rounded = (not isinstance(vnow, str)) and kernel.max_denominator(model.value(self.slots[step["a"]].live)) > 10**4
             if all(isinstance(x, (int, Fraction)) for x in (a0, a1, ratio)) and not rounded:
                 ok = a1 == a0 * ratio
             else:
@@ -668,8 +668,15 @@ class World:
     # ------------------------------------------------------------- comparison
     def _regime(self, names):
         vals = [self.slots[n].V for n in dict.fromkeys(names)]
-        tol = kernel.Tol(*vals) if any(not isinstance(v, str) for v in vals) else None
+        lives = [model.value(self.slots[n].live) for n in dict.fromkeys(names)]
+        both = [v for v in vals + lives if not isinstance(v, str)]
+        tol = kernel.Tol(*both) if both else None
+        # exact: model AND live representation are rational polygons (an operator with a float
+        # partner leaves float vertices on a rational operand)
         exact = bool(tol and tol.exact) or tol is None
+        # numbers (areas, moments, boxes) are exact only while denominators stay small: Point2D
+        # arithmetic re-normalises every intermediate point with limit_denominator(10**9)
+        exact_nums = exact and all(kernel.max_denominator(v) <= 10**4 for v in both)
         good = True
         binary_t2 = False
         if len(names) == 2:
@@ -699,7 +706,8 @@ class World:
         extent = max([0.0] + [abs(float(c)) for v in vals for c in kernel.coords_of(v)])
         if extent > LARGE and not exact:
             binary_t2 = False
-        return {"tol": tol, "exact": exact, "good_position": good, "binary_t2": binary_t2, "extent": extent}
+        return {"tol": tol, "exact": exact, "exact_nums": exact_nums, "good_position": good,
+                "binary_t2": binary_t2, "extent": extent}
 
     def _t2_applicable(self, step, regime, binary):
         op = step["op"]
@@ -744,8 +752,9 @@ class World:
                 return (pa == pb), f"{_short(pa)} vs {_short(pb)}"
             ok, why = kernel.same_region(pa, pb, None if not exact else None)
             return ok, f"results denote different regions: {why}; {_short(pa)} vs {_short(pb)}"
+        exact_nums = regime.get("exact_nums", exact) and not lossy
         if ka == "num":
-            if exact and op != "jlen" and isinstance(pa, (int, Fraction)) and isinstance(pb, (int, Fraction)):
+            if exact_nums and op != "jlen" and isinstance(pa, (int, Fraction)) and isinstance(pb, (int, Fraction)):
                 return (pa == pb), f"{pa!r} vs {pb!r}"
             fa, fb = float(pa), float(pb)
             if math.isinf(fa) or math.isinf(fb):
@@ -767,7 +776,7 @@ class World:
             scale = base * (ext ** power) + rel * max(abs(fa), abs(fb))
             return abs(fa - fb) <= scale, f"{op}: {fa!r} vs {fb!r}"
         if ka == "box":
-            if exact:
+            if exact_nums:
                 return (pa == pb), f"box {pa!r} vs {pb!r}"
             d = tol.d if tol else 1.0
             ok = all(abs(float(x) - float(y)) <= 1e-9 * max(d, abs(float(x))) for x, y in zip(pa, pb))
